@@ -8,7 +8,7 @@ namespace Driver.C01
 /-! Line protocol of C01 (see harness/c01.cpp for the `emit` syntax).
 
   form <name> <modes> <space> <pp> <map> <w> <l> <opcode> <ri> <modKind> <modr> <modrm> <immBytes> <relBytes> <moff>
-       <osz> <a67> <tuple> <elem> <kmask> <zmask> <er> <sae> <bcst> <nops> { <role> <implicit> <nalts> <alt>* }     -> (nothing)
+       <osz> <a67> <tuple> <elem> <kmask> <zmask> <er> <sae> <bcst> <immrev> <nops> { <role> <implicit> <nalts> <alt>* }     -> (nothing)
        alt = r.<kind>.<fixed|-> | m.<size|->.<vsib kind> | i.<bits>.<sign>.<fixed|-> | l.<bits>
   chk <mode> <base|-> <off> <name> <opts> <k> <operand>* = <hex bytes>         -> good <form index> | BAD <stage> <reason>
   enc <mode> <base|-> <off> <row: id enc main alt iflags aflags> <opts> <k> <operand>*   -> ok <hex> | err <code> | unmodelled
@@ -45,13 +45,13 @@ def parseFormOps : Nat → List String → Option (List FormOp)
 def parseForm (ws : List String) : Option (String × Rule) :=
   match ws with
   | name :: modes :: space :: pp :: map :: w :: l :: opcode :: ri :: modKind :: modr :: modrm :: immB :: relB :: moff ::
-    osz :: a67 :: tuple :: elem :: kmask :: zmask :: er :: sae :: bcst :: nops :: rest => do
+    osz :: a67 :: tuple :: elem :: kmask :: zmask :: er :: sae :: bcst :: immrev :: nops :: rest => do
     let ops ← parseFormOps (← nops.toNat?) rest
     some (name, { modes := ← modes.toNat?, space := ← space.toNat?, pp := ← pp.toNat?, map := ← map.toNat?, w := ← w.toNat?,
                   l := ← l.toNat?, opcode := ← opcode.toNat?, ri := ri == "1", modKind := ← modKind.toNat?, modr := ← modr.toNat?,
                   modrm := ← modrm.toNat?, immBytes := ← immB.toNat?, relBytes := ← relB.toNat?, moff := moff == "1",
                   osz := ← osz.toNat?, a67 := a67 == "1", tuple := ← tuple.toNat?, elem := ← elem.toNat?, kmask := kmask == "1",
-                  zmask := zmask == "1", er := er == "1", sae := sae == "1", bcst := bcst == "1", ops := ops })
+                  zmask := zmask == "1", er := er == "1", sae := sae == "1", bcst := bcst == "1", immRev := immrev == "1", ops := ops })
   | _ => none
 
 def parseOperand (s : String) : Option Operand :=
